@@ -33,6 +33,7 @@ func main() {
 	}
 	res := lib.NewResult("C07", f)
 	runCore(f, res)
+	runRim(f, res)
 	runModels(f, res)
 	if err := res.Write(f.Out); err != nil {
 		lib.Fatal(err)
@@ -66,6 +67,14 @@ func replay(f lib.Flags) int {
 		}
 		runCoreSeq(cs, nil, m, nil)
 		fmt.Printf("replay core sequence of %d ops\n", len(cs.Ops))
+	case "rim":
+		var c rcase
+		if err := json.Unmarshal(b, &c); err != nil {
+			lib.Fatal(err)
+		}
+		ans, changed := runRimCase(c)
+		rimMonitor(c, ans, changed, m)
+		fmt.Printf("replay rim %v -> %s\n", c, ans)
 	default:
 		fmt.Println("replay: unknown input kind", in["kind"])
 		return 2
